@@ -603,6 +603,23 @@ def check(ctx):
     if n8 < 1:
         raise AnalysisError('C08.R8: no json.loads call found in asn1tools/codecs/jer.py')
 
+    # ---- R9: the end-of-contents helper of the BER decoders never hands back an offset below the one it was given.  The lengths of nested TLVs are checked against the whole
+    #      buffer only, so a child may end behind its parent; if the helper then "corrects" the offset to the parent's declared end the read position moves backwards and the
+    #      octets in between are decoded again -- once more per nesting level (exponential work for a 70-octet input).  Decided by bounded evaluation (sa/excmap.py).
+    ctx.rule('C08.R9', 'ber.is_end_of_data returns an offset that is never below the current one (also when the current offset is already past the declared end)')
+    from .. import excmap as _ex
+    ied = model.mod(BER).functions.get('is_end_of_data')
+    if ied is None:
+        ctx.instance('C08.R9', 'ber.is_end_of_data', 'undecided', 'helper not found (the loops are covered by C08.R2)', nontrivial=False, file=BER)
+    else:
+        e_ok, e_und, e_bad, e_why = _ex.evaluate_is_end_of_data(ied)
+        ctx.instance('C08.R9', 'ber.is_end_of_data evaluated on %d (offset, end) cases, %d undecided' % (e_ok + (1 if e_bad else 0), e_und), 'VIOLATION' if e_bad else ('ok' if e_ok else 'undecided'),
+                     e_why or '', nontrivial=e_ok > 0, node=ied, file=BER)
+        if e_bad:
+            ctx.violation('C08.R9', BER, ied, Model.qual(ied),
+                          '%s: when a nested TLV ends behind the declared end of its parent the decoder continues from an earlier offset and decodes the same octets again; with k nested '
+                          'levels the work doubles k times (a 69-octet input yields 65536 octets of output)' % e_bad, stmt='end-of-data offset')
+
 
 def decode_length_missing_data(model):
     """Every path on which ber.decode_length returns a definite length (L, O) has established  not (O + L > len(buffer)),
